@@ -161,6 +161,10 @@ pub fn expand<T: AsRef<Path>>(path: T) -> RvResult<PathBuf> {
                 Component::Normal(y) => {
                     let mut str = String::new();
                     let seg = y.to_string()?;
+                    if seg.ends_with('$') {
+                        // a trailing `$` names no variable
+                        return Err(PathError::invalid_expansion(seg).into());
+                    }
                     let mut chars = seg.chars().peekable();
 
                     while chars.peek().is_some() {
